@@ -160,6 +160,8 @@ class ClassInfo(object):
 
 
 class FuncInfo(object):
+    repo = None
+
     def __init__(self, qual, module, node, cls=None, parent=None):
         self.qual = qual            # 'module:Class.meth' / 'module:func'
         self.module = module
@@ -241,6 +243,8 @@ class Repo(object):
                 self.ptyprocess_path = p
                 self._load('ptyprocess', p, fold=False)
         self._index()
+        for f in self.funcs.values():
+            f.repo = self
 
     # ---- loading
     def _load(self, name, path, fold=True):
@@ -339,6 +343,23 @@ class Repo(object):
                 fi.nested.setdefault(node.name, []).append(sub)
                 self.funcs[q] = sub
                 self._index_nested(m, sub)
+
+    def noreturn_names(self):
+        """Method names all of whose definitions in the package end in a
+        top-level ``raise`` and contain no ``return``: a call statement
+        ``self.<name>(...)`` never completes normally."""
+        if getattr(self, '_noreturn', None) is None:
+            by_name = {}
+            for q, f in self.funcs.items():
+                if f.module.name == 'ptyprocess':
+                    continue
+                body = [st for st in f.node.body
+                        if not (isinstance(st, ast.Expr) and isinstance(st.value, ast.Constant))]
+                nr = bool(body) and isinstance(body[-1], ast.Raise) and not any(
+                    isinstance(x, (ast.Return, ast.Yield, ast.YieldFrom)) for x in ast.walk(f.node))
+                by_name.setdefault(f.name, []).append(nr)
+            self._noreturn = set(k for k, v in by_name.items() if all(v))
+        return self._noreturn
 
     # ---- queries
     def func(self, qual):
